@@ -6,7 +6,10 @@ import GtirbModel.MsgDriver
 `reser <hex>` -> `ok <hex of serMIR (parseMIR bytes)> <wfW>` | `reject` (the parser's
 result in the writer's canonical form: lets the harness compare it with the real
 parser's message without depending on wire order);
-`wire <hex>` -> `ok <n> (<field number>:<wire type>:<number or hex>)*` | `reject`. -/
+`wire <hex>` -> `ok <n> (<field number>:<wire type>:<number or hex>)*` | `reject`;
+`loadfile <hex of a whole file>` -> the function of the file-level theorems itself,
+`Msg.loadBytes parseMIR`: `ok <IRV, unordered collections sorted>` | `err:header` | `err:parse` | `err:value` | ...;
+`savefile <IRV>` -> `ok <hex of Msg.saveBytes serMIR v> <wfir> <wfW (toMsg v)>`. -/
 namespace Gtirb.Pb
 open Gtirb
 
@@ -18,6 +21,16 @@ def showWVal : WVal → String
 
 def showWMsg (m : WMsg) : String :=
   " ".intercalate (toString m.length :: m.map fun f => s!"{f.1}:" ++ showWVal f.2)
+
+/-- order-insensitive form for the file tie: what Python keeps in sets / dicts is sorted
+(as `Msg.canon` does for `deep_eq`), but the module ORDER and the AuxData contents are kept -/
+def auxSorted (l : List Msg.AuxV) : List Msg.AuxV :=
+  Msg.sortBy (fun a b => decide (a.key ≤ b.key)) l
+
+def canonKeep (v : Msg.IRV) : Msg.IRV :=
+  { v with modules := v.modules.map fun m => { Msg.canonModule m with aux := auxSorted m.aux },
+           edges := Msg.sortBy Msg.edgeLe v.edges,
+           aux := auxSorted v.aux }
 
 def driverStep (line : String) : String :=
   match fields line with
@@ -39,6 +52,25 @@ def driverStep (line : String) : String :=
       | some m => "ok " ++ hexOrDash (serMIR m) ++ " " ++ Msg.tBool (wfW m)
       | none => "reject"
     | none => "bad-op"
+  | ["loadfile", h] =>
+    match bytesOfHex h with
+    | some bs =>
+      match Msg.loadBytes parseMIR bs with
+      | .ok v => "ok " ++ Msg.showIRV (canonKeep v)
+      | .error .header => "err:header"
+      | .error .parse => "err:parse"
+      | .error (.msg e) => Msg.errName e
+    | none => "bad-op"
+  | "canonirv" :: ts =>
+    match Msg.readIRV ts with
+    | some (v, []) => "ok " ++ Msg.showIRV (canonKeep v)
+    | _ => "bad-op"
+  | "savefile" :: ts =>
+    match Msg.readIRV ts with
+    | some (v, []) =>
+      "ok " ++ hexOrDash (Msg.saveBytes serMIR v) ++ " " ++ Msg.tBool (Msg.wfir v) ++ " "
+        ++ Msg.tBool (wfW (Msg.toMsg v))
+    | _ => "bad-op"
   | ["wire", h] =>
     match bytesOfHex h with
     | some bs =>
